@@ -25,6 +25,8 @@ SPEC = {
                   "of the LTS labels; the set/cancel order is decided by the extracted-order lemma.",
     "drivers": [
         {"pkg": "internal/corerad", "test": "TestVerifC20", "newgo": True, "timeout": 1200},
+        # when the real Advertiser reports ready: after its first complete initialisation, never for a failed one
+        {"pkg": "internal/corerad", "test": "TestVerifC20Ready", "newgo": True, "timeout": 300},
     ],
     "rule": "BuildTasks: every advertise/monitor flag combination for 0-3 interfaces x debug on/off, then random lists of 0-8 "
             "interfaces with repeating names. Serve: the real Serve under synctest (virtual time) with scripted tasks of the classes "
